@@ -88,14 +88,65 @@ class Builder:
         return ast.Program(self.ctx, self.lang)
 
 
+class Chooser:
+    """Every random choice of a hand-shaped program goes through one of these: backed by Hypothesis (exploration,
+    shrinking), by a seeded PRNG (pools) or by a recorded trace (replay files).  The trace of choices is the
+    replayable identity of the program."""
+
+    def __init__(self, draw=None, rnd=None, trace=None):
+        self.draw, self.rnd = draw, rnd
+        self.replay = list(trace) if trace is not None else None
+        self.trace = []
+
+    def integer(self, a, b):
+        if self.replay is not None:
+            v = self.replay.pop(0) if self.replay else a
+            v = min(max(int(v), a), b)
+        elif self.draw is not None:
+            v = self.draw(st.integers(a, b))
+        else:
+            v = self.rnd.randint(a, b)
+        self.trace.append(v)
+        return v
+
+    def pick(self, seq):
+        seq = list(seq)
+        return seq[self.integer(0, len(seq) - 1)]
+
+    def boolean(self):
+        return bool(self.integer(0, 1))
+
+
 @st.composite
 def programs(draw, lang):
     """-> (program, [unit labels])"""
+    prog, labels, _ = build(lang, Chooser(draw=draw))
+    return prog, labels
+
+
+@st.composite
+def programs_with_trace(draw, lang):
+    """-> (program, [unit labels], trace): `from_trace(lang, trace)` rebuilds the same program."""
+    return build(lang, Chooser(draw=draw))
+
+
+def from_seed(lang, seed):
+    import random
+    return build(lang, Chooser(rnd=random.Random(seed)))
+
+
+def from_trace(lang, trace):
+    return build(lang, Chooser(trace=trace))
+
+
+def build(lang, ch):
+    """-> (program, [unit labels], trace of choices)"""
     from src.ir import ast, types as tp
     b = Builder(lang)
-    units = draw(st.lists(st.sampled_from(['recursive', 'recursive', 'ret-only-generic', 'ret-only-generic', 'box', 'reassigned',
+    UNITS = ['recursive', 'recursive', 'ret-only-generic', 'ret-only-generic', 'box', 'reassigned',
                                            'chain', 'lambda-arg', 'phantom', 'global-reassigned', 'nested-func', 'nested-func',
-                                           'generic-call']), min_size=1, max_size=4))
+                                           'generic-call']
+    units = [ch.pick(UNITS) for _ in range(ch.integer(1, 4))]
     labels = []
     for u in units:
         if u == 'recursive':
@@ -103,9 +154,9 @@ def programs(draw, lang):
             c = b.cls(cname)
             ct = c.get_type()
             fname = b.name('echo')
-            how = draw(st.sampled_from(['plain-call', 'receiver-new', 'receiver-bottom', 'constant']))
-            block = draw(st.booleans())
-            ret = draw(st.sampled_from([b.string(), b.integer()]))
+            how = ch.pick(['plain-call', 'receiver-new', 'receiver-bottom', 'constant'])
+            block = ch.boolean()
+            ret = ch.pick([b.string(), b.integer()])
             ns = b.G + (cname,)
             if how == 'plain-call':
                 e = ast.FunctionCall(fname, [])
@@ -121,13 +172,13 @@ def programs(draw, lang):
         elif u in ('ret-only-generic', 'lambda-arg'):
             T = tp.TypeParameter('T%d' % b.n)
             pname = b.name('pick')
-            argk = draw(st.sampled_from(['typed-constant', 'untyped-bottom', 'typed-bottom', 'none'])) if u == 'ret-only-generic' else 'lambda'
+            argk = ch.pick(['typed-constant', 'untyped-bottom', 'typed-bottom', 'none']) if u == 'ret-only-generic' else 'lambda'
             params = []
             if argk != 'none':
                 pt = b.anyt() if argk != 'lambda' else b.f.get_function_type(0).new([b.integer()])
                 params = [ast.ParameterDeclaration(b.name('x'), pt)]
             b.func(b.G, pname, params, T, ast.BottomConstant(T), type_params=[T])
-            want = draw(st.sampled_from([b.string(), b.number()]))
+            want = ch.pick([b.string(), b.number()])
             if argk == 'typed-constant':
                 a = [ast.CallArgument(ast.IntegerConstant(7, b.integer()))]
             elif argk == 'untyped-bottom':
@@ -144,18 +195,18 @@ def programs(draw, lang):
             vname = b.name('a')
             v = ast.VariableDeclaration(vname, call, is_final=True, var_type=want)
             uname = b.name('user')
-            uses = draw(st.sampled_from(['return-var', 'pass-on']))
+            uses = ch.pick(['return-var', 'pass-on'])
             b.func(b.G, uname, [], want, ast.Block([v, ast.Variable(vname)]))
             labels.append('ret-only-generic/%s' % argk)
         elif u == 'nested-func':
             # a function declared inside a function (Java/Groovy: a lambda held in a FunctionN variable)
             oname, iname = b.name('outer'), b.name('inner')
-            nfixed = draw(st.integers(0, 5))
-            vararg = draw(st.booleans())
-            ret = draw(st.sampled_from([b.string(), b.integer()]))
+            nfixed = ch.integer(0, 5)
+            vararg = ch.boolean()
+            ret = ch.pick([b.string(), b.integer()])
             params, args = [], []
             for j in range(nfixed):
-                pt = draw(st.sampled_from([b.string(), b.integer()]))
+                pt = ch.pick([b.string(), b.integer()])
                 params.append(ast.ParameterDeclaration(b.name('q'), pt))
                 args.append(ast.CallArgument(ast.StringConstant('a%d' % b.n) if pt == b.string()
                                              else ast.IntegerConstant(100 + b.n, b.integer())))
@@ -170,11 +221,11 @@ def programs(draw, lang):
                 else:
                     vt = b.f.get_array_type().new([b.integer()])
                 params.append(ast.ParameterDeclaration(b.name('vs'), vt, vararg=True))
-                nvar = draw(st.integers(0, 3))
+                nvar = ch.integer(0, 3)
                 for j in range(nvar):
                     b.n += 1
                     args.append(ast.CallArgument(ast.IntegerConstant(200 + b.n, b.integer())))
-            block = draw(st.booleans())
+            block = ch.boolean()
             ibody = b.const(ret)
             inner = b.func(b.G + (oname,), iname, params, ret, ast.Block([ibody]) if block else ibody)
             call = ast.FunctionCall(iname, args)
@@ -186,7 +237,7 @@ def programs(draw, lang):
             iname = b.name('ident')
             par = ast.ParameterDeclaration(b.name('x'), T)
             b.func(b.G, iname, [par], T, ast.Variable(par.name), type_params=[T])
-            want = draw(st.sampled_from([b.string(), b.integer()]))
+            want = ch.pick([b.string(), b.integer()])
             call = ast.FunctionCall(iname, [ast.CallArgument(b.const(want))], type_args=[want])
             vname = b.name('r')
             v = ast.VariableDeclaration(vname, call, is_final=True, var_type=want)
@@ -198,13 +249,13 @@ def programs(draw, lang):
             fld = ast.FieldDeclaration(b.name('f'), T, is_final=True)
             c = b.cls(cname, fields=[fld], type_params=[T])
             con = c.get_type()
-            decl_arg = draw(st.sampled_from(['exact', 'supertype']))
+            decl_arg = ch.pick(['exact', 'supertype'])
             targ = b.string() if decl_arg == 'exact' else b.anyt()
             t = con.new([targ])
             new = ast.New(t, [ast.StringConstant('x')])
             vname = b.name('b')
             v = ast.VariableDeclaration(vname, new, is_final=True, var_type=con.new([targ]))    # (no object sharing)
-            use = draw(st.sampled_from(['field-access', 'var']))
+            use = ch.pick(['field-access', 'var'])
             e = ast.FieldAccess(ast.Variable(vname), fld.name) if use == 'field-access' else ast.Variable(vname)
             b.func(b.G, b.name('mk'), [], targ if use == 'field-access' else con.new([targ]), ast.Block([v, e]))
             labels.append('box/%s/%s' % (decl_arg, use))
@@ -214,10 +265,10 @@ def programs(draw, lang):
             cname = b.name('Phantom')
             c = b.cls(cname, type_params=[T])
             con = c.get_type()
-            targ = draw(st.sampled_from([b.number(), b.number(), b.integer(), b.string()]))
+            targ = ch.pick([b.number(), b.number(), b.integer(), b.string()])
             vname = b.name('p')
             v = ast.VariableDeclaration(vname, ast.New(con.new([targ]), []), is_final=True, var_type=con.new([targ]))
-            if draw(st.booleans()):
+            if ch.boolean():
                 b.func(b.G, b.name('ph'), [], con.new([targ]), ast.Block([v, ast.Variable(vname)]))
                 labels.append('phantom/returned')
             else:
@@ -225,16 +276,16 @@ def programs(draw, lang):
                 labels.append('phantom/unused')
         elif u == 'global-reassigned':
             # a top-level variable whose declared type its initialiser does not determine, assigned by a later function
-            kind = draw(st.sampled_from(['supertype', 'phantom']))
+            kind = ch.pick(['supertype', 'phantom'])
             gname = b.name('g')
             if kind == 'supertype':
-                wide = draw(st.sampled_from([b.anyt(), b.number()]))
+                wide = ch.pick([b.anyt(), b.number()])
                 g = ast.VariableDeclaration(gname, ast.IntegerConstant(1, b.integer()), is_final=False, var_type=wide)
                 ptype = wide
             else:
                 T = tp.TypeParameter('Q%d' % b.n)
                 c = b.cls(b.name('Shell'), type_params=[T])
-                targ = draw(st.sampled_from([b.string(), b.number()]))
+                targ = ch.pick([b.string(), b.number()])
                 ptype = c.get_type().new([targ])
                 g = ast.VariableDeclaration(gname, ast.New(c.get_type().new([targ]), []), is_final=False,
                                             var_type=c.get_type().new([targ]))
@@ -244,7 +295,7 @@ def programs(draw, lang):
             labels.append('global-reassigned/' + kind)
         elif u == 'reassigned':
             vname = b.name('v')
-            wide = draw(st.sampled_from([b.anyt(), b.number()]))
+            wide = ch.pick([b.anyt(), b.number()])
             v = ast.VariableDeclaration(vname, ast.IntegerConstant(1, b.integer()), is_final=False, var_type=wide)
             other = ast.StringConstant('z') if type(wide).__name__ in ('AnyType', 'ObjectType') else ast.IntegerConstant(2, b.number())
             asg = ast.Assignment(vname, other)
@@ -253,9 +304,9 @@ def programs(draw, lang):
         else:
             x = b.name('x')
             y = b.name('y')
-            wide = draw(st.sampled_from([b.number(), b.integer()]))
+            wide = ch.pick([b.number(), b.integer()])
             vx = ast.VariableDeclaration(x, ast.IntegerConstant(1, b.integer()), is_final=True, var_type=wide)
             vy = ast.VariableDeclaration(y, ast.Variable(x), is_final=True, var_type=wide)
             b.func(b.G, b.name('ch'), [], wide, ast.Block([vx, vy, ast.Variable(y)]))
             labels.append('chain')
-    return b.program(), labels
+    return b.program(), labels, list(ch.trace)
